@@ -33,19 +33,23 @@ import (
 //	tags     Tags(string[] tags) selected -> logs only; one row per array element (abi_idx), elements may be empty strings
 //	dep      like log/lognh, but input "from" carries filter_ref {integration: Ref, column: addr}
 //	depbd    like log/lognh, but the reference sits on block field log_addr (column addr of Ref)
+//	deptup   Order((address maker, uint256 amt) o): both COMPONENTS of the tuple input selected; the
+//	         reference {integration: Ref, column: addr} sits on component maker (with RefTable:
+//	         plus a user-supplied table name)
 type IGSpec struct {
-	Name    string
-	Shape   string
-	Table   string
-	Hdr     bool     // add block_time (forces headers into the plan) for lognh-like shapes
-	AddrFlt bool     // log shapes: filter log_addr contains TokenAddr (pushed down to eth_getLogs)
-	ToFlt   []byte   // tx shape: keep transactions whose tx_to contains this address
-	Ref     string   // dep shapes: referenced integration
-	Ref2    string   // dep shape: second referenced integration (on input "to")
-	RefBD   string   // dep shape: further referenced integration, on block field log_addr
-	RefLo   uint64   // dep shapes: first block the referenced integration(s) index (their start)
-	Sources []SrcRef // which sources, with start/stop
-	Disable bool
+	Name     string
+	Shape    string
+	Table    string
+	Hdr      bool     // add block_time (forces headers into the plan) for lognh-like shapes
+	AddrFlt  bool     // log shapes: filter log_addr contains TokenAddr (pushed down to eth_getLogs)
+	ToFlt    []byte   // tx shape: keep transactions whose tx_to contains this address
+	Ref      string   // dep shapes: referenced integration
+	Ref2     string   // dep shape: second referenced integration (on input "to")
+	RefBD    string   // dep shape: further referenced integration, on block field log_addr
+	RefTable string   `json:",omitempty"` // deptup: "table" written by the user into the filter_ref
+	RefLo    uint64   // dep shapes: first block the referenced integration(s) index (their start)
+	Sources  []SrcRef // which sources, with start/stop
+	Disable  bool
 	// OrTo (Transfer shapes): a second filter, on event input "to": contains one of
 	// OrToArgs.  Together with AddrFlt the declaration has two active filters, combined
 	// by Agg: "" (filter_agg omitted: OR, like "or") | "or" | "and".
@@ -190,6 +194,20 @@ func (ig *IGSpec) jsonConfig() map[string]any {
 		if ig.Shape == "dep" && ig.RefBD != "" {
 			addBD("log_addr", "bytea", ref(ig.RefBD))
 		}
+	case "deptup":
+		cols = append(cols, jcol{"maker", "bytea"}, jcol{"amt", "numeric"})
+		fr := map[string]any{"integration": ig.Ref, "column": "addr"}
+		if ig.RefTable != "" {
+			fr["table"] = ig.RefTable
+		}
+		maker := input(false, "maker", "address", "maker", map[string]any{"filter_op": "contains", "filter_ref": fr})
+		amt := input(false, "amt", "uint256", "amt", nil)
+		event = map[string]any{"name": "Order", "type": "event", "anonymous": false, "inputs": []any{
+			map[string]any{"indexed": false, "name": "o", "type": "tuple", "components": []any{maker, amt}},
+		}}
+		if ig.Hdr {
+			addBD("block_time", "numeric", nil)
+		}
 	case "appr":
 		cols = append(cols, jcol{"o", "bytea"}, jcol{"s", "bytea"}, jcol{"v", "numeric"})
 		event = map[string]any{"name": "Approval", "type": "event", "anonymous": false, "inputs": []any{
@@ -288,7 +306,7 @@ func (ig *IGSpec) DeclaredRefs() []string {
 		add(ig.Ref)
 		add(ig.Ref2)
 		add(ig.RefBD)
-	case "depbd":
+	case "depbd", "deptup":
 		add(ig.Ref)
 	}
 	return out
@@ -346,6 +364,8 @@ func (ig *IGSpec) matchesNode(l *Log) bool {
 		sig = SigTransfer
 	case "appr":
 		sig = SigApproval
+	case "deptup":
+		sig = SigOrder
 	case "created":
 		sig = SigCreated
 	case "tags":
@@ -375,7 +395,7 @@ func (ig *IGSpec) Project(c *Chain, b *Block, src string) []RowVals {
 		return r
 	}
 	var created map[string]bool
-	if ig.Shape == "dep" || ig.Shape == "depbd" {
+	if ig.Shape == "dep" || ig.Shape == "depbd" || ig.Shape == "deptup" {
 		created = c.CreatedIn(ig.RefLo, b.Num)
 	}
 	for _, tx := range b.Txs {
@@ -413,6 +433,17 @@ func (ig *IGSpec) Project(c *Chain, b *Block, src string) []RowVals {
 				}
 				if ig.AddrFlt || ig.Shape == "depbd" || (ig.Shape == "dep" && ig.RefBD != "") {
 					r["log_addr"] = l.Addr
+				}
+				out = append(out, r)
+			}
+		case "deptup":
+			for _, l := range tx.Logs {
+				if l.Kind != "order" || !created[string(l.From)] {
+					continue
+				}
+				r := stamp(RowVals{"tx_idx": u64(tx.Idx), "log_idx": u64(l.Idx), "abi_idx": u64(0), "maker": l.From, "amt": u64(l.Value)})
+				if ig.Hdr {
+					r["block_time"] = u64(b.Time)
 				}
 				out = append(out, r)
 			}
